@@ -17,7 +17,7 @@ From Coq Require Import Permutation Sorted.
 
 Theorem C06_every_map_iteration_is_a_classified_one :
   forall p f e, In ("maprange"%string, p, f, e) Inventory.inventory ->
-    exists e' c, In (p, f, e', c) MapRanges.map_range_classes.
+    exists w c, In (p, map_type e, w, c) MapRanges.map_range_classes.
 Proof. exact every_map_range_classified. Qed.
 
 Theorem C06_no_goroutine_clock_random_or_pointer_formatting :
